@@ -40,6 +40,7 @@
 
 #include <algorithm>
 #include <cmath>
+#include <functional>
 #include <memory>
 #include <set>
 #include <sstream>
@@ -192,6 +193,62 @@ static void modeNumbers(int argc, char** argv, Rng& rng)
       back = TT::toInt(s);
     });
     emit(ev("IntRT", r).kv("n", n).kv("s", cd.enc(s)).kv("back", back));
+  }
+  // decimals with at most 15 significant digits: text -> double -> text (precision 15) -> double
+  for (long i = 0; i < nrand * 4 + 300; ++i)
+  {
+    chunk("numbers");
+    size_t nd = 1 + rng.below(15);
+    std::string digits;
+    for (size_t k = 0; k < nd; ++k) digits += static_cast<char>('0' + (k == 0 ? 1 + rng.below(9) : rng.below(10)));
+    std::string d = rng.chance(1, 3) ? "-" : "";
+    switch (rng.below(4))
+    {
+    case 0: // plain, decimal point somewhere inside or after
+    {
+      size_t pos = 1 + rng.below(nd);
+      d += digits.substr(0, pos);
+      if (pos < nd) d += "." + digits.substr(pos);
+      break;
+    }
+    case 1: // 0.000ddd
+      d += "0." + std::string(rng.below(6), '0') + digits;
+      break;
+    case 2: // ddd000
+      d += digits + std::string(rng.below(6), '0');
+      break;
+    default: // scientific, magnitude within the normal range of a double
+    {
+      long e10 = rng.range(-290, 290);
+      d += digits.substr(0, 1) + (nd > 1 ? "." + digits.substr(1) : "") + "e" + std::to_string(e10);
+    }
+    }
+    std::string s2;
+    double x = 0, back = 0;
+    Res r = call([&]() {
+      x = TT::toDouble(d);
+      s2 = TT::toString(x, 15);
+      back = TT::toDouble(s2);
+    });
+    emit(ev("DecRT", r).kv("d", cd.enc(d)).kv("s", cd.enc(s2)).kv("same", back == x));
+  }
+  // every finite double: 17 significant digits are enough to get it back
+  for (long i = 0; i < nrand * 4 + 300; ++i)
+  {
+    chunk("numbers");
+    uint64_t bits = rng.next();
+    if (i % 7 == 0) bits &= 0x800fffffffffffffULL;          // subnormal
+    if (i % 11 == 0) bits = (bits & 0x8000000000000000ULL) | 0x7fefffffffffffffULL - rng.below(4); // near the largest
+    double x;
+    memcpy(&x, &bits, sizeof x);
+    if (!(x == x) || x - x != 0) continue; // nan, inf
+    std::string s2;
+    double back = 0;
+    Res r = call([&]() {
+      s2 = TT::toString(x, 17);
+      back = TT::toDouble(s2);
+    });
+    emit(ev("Dbl17RT", r).kv("s", cd.enc(s2)).kv("same", back == x));
   }
   // formatting then parsing: dyadic doubles k / 2^b, |value| < 1000, b <= 6
   for (long i = 0; i < nrand * 4 + 200; ++i)
@@ -609,13 +666,15 @@ static Obj tableProj(const bpp::DataTable& t)
     for (const auto& s : t.getColumnNames()) cols.add(asc(s));
   if (t.hasRowNames())
     for (const auto& s : t.getRowNames()) rows.add(asc(s));
-  for (size_t i = 0; i < t.getNumberOfRows(); ++i)
+  // an absurd dimension (a corrupted object) is logged as it is, without cells: the shape invariant rejects it
+  const bool sane = t.getNumberOfRows() <= 10000 && t.getNumberOfColumns() <= 10000;
+  for (size_t i = 0; sane && i < t.getNumberOfRows(); ++i)
   {
     Arr row;
     for (size_t j = 0; j < t.getNumberOfColumns(); ++j) row.add(asc(t(i, j)));
     cells.add(row);
   }
-  return Obj().kv("ncol", t.getNumberOfColumns()).kv("nrow", t.getNumberOfRows()).kv("cols", cols).kv("rows", rows).kv("cells", cells);
+  return Obj().kv("ncol", sane ? static_cast<long long>(t.getNumberOfColumns()) : -1LL).kv("nrow", sane ? static_cast<long long>(t.getNumberOfRows()) : -1LL).kv("cols", cols).kv("rows", rows).kv("cells", cells);
 }
 
 static void writeRead(const bpp::DataTable& t, const std::string& sep, bool align)
@@ -653,164 +712,370 @@ static std::vector<std::string> uniqueNames(Rng& rng, size_t n, const char* stem
   return v;
 }
 
+// One public call of DataTable = one "Tab" event: op, arguments, outcome (class), returned value, table afterwards.
+struct TabCall
+{
+  bpp::DataTable* t;
+  void operator()(const char* op, const Obj& args, const std::function<J()>& f) const
+  {
+    J val = Arr().j();
+    Res r = call([&]() { val = f(); });
+    if (r.r != "ok") val = Arr().j();
+    emit(ev("Tab", r).kv("op", op).kv("a", args).kv("v", val).kv("s", tableProj(*t)));
+  }
+};
+static J jv(const std::string& s) { return asc(s).j(); }
+static J jvec(const std::vector<std::string>& v) { return ascList(v).j(); }
+static J none() { return Arr().j(); }
+
+static void randomTableCall(bpp::DataTable& t, Rng& rng, size_t maxDim)
+{
+  TabCall tc{&t};
+  size_t ncol = t.getNumberOfColumns(), nrow = t.getNumberOfRows();
+  auto vec = [&](size_t n) {
+    std::vector<std::string> v;
+    for (size_t j = 0; j < n; ++j) v.push_back(cellText(rng));
+    return v;
+  };
+  auto idx = [&](size_t n) { return rng.below(n + 2); };
+  auto rowName = [&]() -> std::string {
+    if (t.hasRowNames() && nrow > 0 && rng.chance(2, 3)) return t.getRowName(rng.below(nrow));
+    static const char* pool[] = {"x", "y", "r1", "r 2", "q"};
+    return pool[rng.below(5)];
+  };
+  auto colName = [&]() -> std::string {
+    if (t.hasColumnNames() && ncol > 0 && rng.chance(2, 3)) return t.getColumnName(rng.below(ncol));
+    static const char* pool[] = {"x", "y", "c1", "c 2", "k"};
+    return pool[rng.below(5)];
+  };
+  auto names = [&](size_t n, const char* stem) {
+    auto v = uniqueNames(rng, rng.chance(1, 8) ? n + 1 : n, stem);
+    if (v.size() > 1 && rng.chance(1, 8)) v[v.size() - 1] = v[0];
+    return v;
+  };
+  switch (rng.below(40))
+  {
+  case 0:
+  {
+    size_t i = idx(nrow), j = idx(ncol);
+    tc("get_ii", Obj().kv("i", i).kv("j", j), [&]() { const bpp::DataTable& c = t; return jv(c(i, j)); });
+    break;
+  }
+  case 1:
+  {
+    size_t i = idx(nrow), j = idx(ncol);
+    std::string v = cellText(rng);
+    tc("set_ii", Obj().kv("i", i).kv("j", j).kv("v", asc(v)), [&]() { t(i, j) = v; return none(); });
+    break;
+  }
+  case 2:
+  {
+    std::string rn = rowName(), cn = colName();
+    tc("get_nn", Obj().kv("rn", asc(rn)).kv("cn", asc(cn)), [&]() { const bpp::DataTable& c = t; return jv(c(rn, cn)); });
+    break;
+  }
+  case 3:
+  {
+    std::string rn = rowName(), cn = colName(), v = cellText(rng);
+    tc("set_nn", Obj().kv("rn", asc(rn)).kv("cn", asc(cn)).kv("v", asc(v)), [&]() { t(rn, cn) = v; return none(); });
+    break;
+  }
+  case 4:
+  {
+    std::string rn = rowName();
+    size_t j = idx(ncol);
+    tc("get_ni", Obj().kv("rn", asc(rn)).kv("j", j), [&]() { const bpp::DataTable& c = t; return jv(c(rn, j)); });
+    break;
+  }
+  case 5:
+  {
+    std::string rn = rowName(), v = cellText(rng);
+    size_t j = idx(ncol);
+    tc("set_ni", Obj().kv("rn", asc(rn)).kv("j", j).kv("v", asc(v)), [&]() { t(rn, j) = v; return none(); });
+    break;
+  }
+  case 6:
+  {
+    std::string cn = colName();
+    size_t i = idx(nrow);
+    tc("get_in", Obj().kv("i", i).kv("cn", asc(cn)), [&]() { const bpp::DataTable& c = t; return jv(c(i, cn)); });
+    break;
+  }
+  case 7:
+  {
+    std::string cn = colName(), v = cellText(rng);
+    size_t i = idx(nrow);
+    tc("set_in", Obj().kv("i", i).kv("cn", asc(cn)).kv("v", asc(v)), [&]() { t(i, cn) = v; return none(); });
+    break;
+  }
+  case 8:
+  {
+    auto n = names(ncol, "c");
+    tc("setColNames", Obj().kv("names", ascList(n)), [&]() { t.setColumnNames(n); return none(); });
+    break;
+  }
+  case 9: tc("getColNames", Obj(), [&]() { return jvec(t.getColumnNames()); }); break;
+  case 10:
+  {
+    size_t i = idx(ncol);
+    tc("getColName", Obj().kv("i", i), [&]() { return jv(t.getColumnName(i)); });
+    break;
+  }
+  case 11: tc("hasColNames", Obj(), [&]() { return J::boolean(t.hasColumnNames()); }); break;
+  case 12:
+  {
+    size_t i = idx(ncol);
+    tc("getCol_i", Obj().kv("i", i), [&]() { const bpp::DataTable& c = t; return jvec(c.getColumn(i)); });
+    break;
+  }
+  case 13:
+  {
+    std::string n = colName();
+    tc("getCol_n", Obj().kv("name", asc(n)), [&]() { const bpp::DataTable& c = t; return jvec(c.getColumn(n)); });
+    break;
+  }
+  case 14:
+  {
+    std::string n = colName();
+    tc("hasCol", Obj().kv("name", asc(n)), [&]() { return J::boolean(t.hasColumn(n)); });
+    break;
+  }
+  case 15:
+  {
+    size_t i = idx(ncol);
+    tc("delCol_i", Obj().kv("i", i), [&]() { t.deleteColumn(i); return none(); });
+    break;
+  }
+  case 16:
+  {
+    std::string n = colName();
+    tc("delCol_n", Obj().kv("name", asc(n)), [&]() { t.deleteColumn(n); return none(); });
+    break;
+  }
+  case 17:
+  case 18:
+  {
+    if (ncol >= maxDim) break;
+    auto v = vec(rng.chance(1, 8) ? nrow + 1 : nrow);
+    tc("addCol", Obj().kv("vec", ascList(v)), [&]() { t.addColumn(v); return none(); });
+    break;
+  }
+  case 19:
+  case 20:
+  {
+    if (ncol >= maxDim) break;
+    auto v = vec(rng.chance(1, 8) ? nrow + 1 : nrow);
+    std::string n = rng.chance(1, 4) ? colName() : "c" + std::to_string(rng.below(50));
+    tc("addCol_n", Obj().kv("name", asc(n)).kv("vec", ascList(v)), [&]() { t.addColumn(n, v); return none(); });
+    break;
+  }
+  case 21:
+  {
+    auto n = names(nrow, "r");
+    tc("setRowNames", Obj().kv("names", ascList(n)), [&]() { t.setRowNames(n); return none(); });
+    break;
+  }
+  case 22:
+  {
+    size_t i = idx(nrow);
+    std::string n = rng.chance(1, 3) ? rowName() : "n" + std::to_string(rng.below(50));
+    tc("setRowName", Obj().kv("i", i).kv("name", asc(n)), [&]() { t.setRowName(i, n); return none(); });
+    break;
+  }
+  case 23: tc("getRowNames", Obj(), [&]() { return jvec(t.getRowNames()); }); break;
+  case 24:
+  {
+    size_t i = idx(nrow);
+    tc("getRowName", Obj().kv("i", i), [&]() { return jv(t.getRowName(i)); });
+    break;
+  }
+  case 25: tc("hasRowNames", Obj(), [&]() { return J::boolean(t.hasRowNames()); }); break;
+  case 26:
+  {
+    std::string n = rowName();
+    tc("hasRow", Obj().kv("name", asc(n)), [&]() { return J::boolean(t.hasRow(n)); });
+    break;
+  }
+  case 27:
+  {
+    size_t i = idx(nrow);
+    tc("getRow_i", Obj().kv("i", i), [&]() { return jvec(t.getRow(i)); });
+    break;
+  }
+  case 28:
+  {
+    std::string n = rowName();
+    tc("getRow_n", Obj().kv("name", asc(n)), [&]() { return jvec(t.getRow(n)); });
+    break;
+  }
+  case 29:
+  {
+    size_t i = idx(nrow);
+    tc("delRow_i", Obj().kv("i", i), [&]() { t.deleteRow(i); return none(); });
+    break;
+  }
+  case 30:
+  {
+    std::string n = rowName();
+    tc("delRow_n", Obj().kv("name", asc(n)), [&]() { t.deleteRow(n); return none(); });
+    break;
+  }
+  case 31:
+  case 32:
+  {
+    if (nrow >= maxDim) break;
+    auto v = vec(rng.chance(1, 8) ? ncol + 1 : ncol);
+    tc("addRow", Obj().kv("vec", ascList(v)), [&]() { t.addRow(v); return none(); });
+    break;
+  }
+  case 33:
+  case 34:
+  {
+    if (nrow >= maxDim) break;
+    auto v = vec(rng.chance(1, 8) ? ncol + 1 : ncol);
+    std::string n = rng.chance(1, 4) ? rowName() : "r" + std::to_string(rng.below(50));
+    tc("addRow_n", Obj().kv("name", asc(n)).kv("vec", ascList(v)), [&]() { t.addRow(n, v); return none(); });
+    break;
+  }
+  case 35:
+  {
+    size_t i = idx(nrow);
+    auto v = vec(rng.chance(1, 8) ? ncol + 1 : ncol);
+    tc("setRow", Obj().kv("i", i).kv("vec", ascList(v)), [&]() { t.setRow(i, v); return none(); });
+    break;
+  }
+  case 36:
+  {
+    if (rng.coin())
+      tc("copy", Obj(), [&]() {
+        bpp::DataTable c(t);
+        std::unique_ptr<bpp::DataTable> d(c.clone());
+        t = *d;
+        return none();
+      });
+    else
+    {
+      size_t c2 = rng.below(4), r2 = rng.below(3);
+      bpp::DataTable o(r2, c2);
+      for (size_t a = 0; a < r2; ++a)
+        for (size_t b = 0; b < c2; ++b) o(a, b) = cellText(rng);
+      if (c2 > 0 && rng.coin()) o.setColumnNames(uniqueNames(rng, c2, "k"));
+      if (r2 > 0 && rng.chance(1, 3)) o.setRowNames(uniqueNames(rng, r2, "q"));
+      tc("assign", Obj().kv("t", tableProj(o)), [&]() { t = o; return none(); });
+    }
+    break;
+  }
+  case 37:
+  {
+    static const char* seps[] = {",", "\t", ";"};
+    std::string sep = seps[rng.below(3)];
+    bool al = rng.coin();
+    tc("write", Obj().kv("sep", asc(sep)).kv("align", al), [&]() {
+      std::ostringstream os;
+      bpp::DataTable::write(t, os, sep, al);
+      return jv(os.str());
+    });
+    break;
+  }
+  case 38:
+  {
+    // write, then read with any header flag and row-name column: the table becomes what was read
+    static const char* seps[] = {",", "\t", ";"};
+    std::string sep = seps[rng.below(3)];
+    std::ostringstream os;
+    bpp::DataTable::write(t, os, sep, rng.coin());
+    std::string text = os.str();
+    if (rng.chance(1, 6)) text = corrupt(rng, text, ",\t;\nab", 1);
+    bool header = rng.coin();
+    int rn = static_cast<int>(rng.below(4)) - 1;
+    std::unique_ptr<bpp::DataTable> back;
+    Res r = call([&]() {
+      std::istringstream is(text);
+      back = bpp::DataTable::read(is, sep, header, rn);
+    });
+    if (back) t = *back;
+    emit(ev("TabRead", r).kv("text", asc(text)).kv("sep", asc(sep)).kv("header", header).kv("rn", rn).kv("s", tableProj(t)));
+    break;
+  }
+  default:
+  {
+    static const char* seps[] = {",", "\t", ";"};
+    writeRead(t, seps[rng.below(3)], rng.coin());
+  }
+  }
+}
+
 static void modeTable(int argc, char** argv, Rng& rng)
 {
   size_t dim = static_cast<size_t>(argInt(argc, argv, "--dim", 4));
   long nrand = argInt(argc, argv, "--rand", 100);
   static const char* seps[] = {",", "\t", ";"};
-  // (a) every shape up to dim x dim, every naming mode, built directly
+  // (a) every shape up to dim x dim, every naming mode, built call by call, then written and read back
   for (size_t nc = 1; nc <= dim; ++nc)
     for (size_t nr = 0; nr <= dim; ++nr)
       for (int naming = 0; naming < 3; ++naming)
       {
         reset("table-shape");
-        emit(Obj().kv("e", "TabNew").kv("nc", nc).kv("s", tableProj(bpp::DataTable(nc))));
-        bpp::DataTable u(nc);
+        bpp::DataTable u(0);
+        TabCall tc{&u};
+        tc("new_c", Obj().kv("nc", nc), [&]() { u = bpp::DataTable(nc); return none(); });
         for (size_t i = 0; i < nr; ++i)
         {
           std::vector<std::string> row;
           for (size_t j = 0; j < nc; ++j) row.push_back(cellText(rng));
-          Res r = call([&]() { u.addRow(row); });
-          emit(ev("TabEdit", r).kv("op", "addRow").kv("s", tableProj(u)));
+          tc("addRow", Obj().kv("vec", ascList(row)), [&]() { u.addRow(row); return none(); });
         }
         if (naming >= 1)
         {
           auto cn = uniqueNames(rng, nc, "c");
-          Res r = call([&]() { u.setColumnNames(cn); });
-          emit(ev("TabEdit", r).kv("op", "setColumnNames").kv("s", tableProj(u)));
+          tc("setColNames", Obj().kv("names", ascList(cn)), [&]() { u.setColumnNames(cn); return none(); });
         }
         if (naming == 2 && nr > 0)
         {
           auto rn = uniqueNames(rng, nr, "r");
-          Res r = call([&]() { u.setRowNames(rn); });
-          emit(ev("TabEdit", r).kv("op", "setRowNames").kv("s", tableProj(u)));
+          tc("setRowNames", Obj().kv("names", ascList(rn)), [&]() { u.setRowNames(rn); return none(); });
         }
         for (const char* sep : seps)
           for (int al = 0; al < 2; ++al) writeRead(u, sep, al != 0);
       }
-  // (b) seeded editing histories, a round trip after every few edits
+  // (b) seeded histories over the whole public interface (calls that raise included); write -> read from
+  //     whatever table the history has reached
   for (long i = 0; i < nrand; ++i)
   {
     reset("table-history");
-    size_t nc = rng.below(7);
-    bpp::DataTable t(nc);
-    emit(Obj().kv("e", "TabNew").kv("nc", nc).kv("s", tableProj(t)));
-    size_t steps = 4 + rng.below(14);
-    for (size_t k = 0; k < steps; ++k)
+    bpp::DataTable t(0);
+    TabCall tc{&t};
+    switch (rng.below(4))
     {
-      size_t ncol = t.getNumberOfColumns(), nrow = t.getNumberOfRows();
-      const char* op = "";
-      Res r;
-      auto vec = [&](size_t n) {
-        std::vector<std::string> v;
-        for (size_t j = 0; j < n; ++j) v.push_back(cellText(rng));
-        return v;
-      };
-      switch (rng.below(12))
-      {
-      case 0:
-      case 1:
-      {
-        op = "addRow";
-        auto row = vec(rng.chance(1, 8) ? ncol + 1 : ncol);
-        if (nrow >= 6) continue;
-        r = call([&]() { t.addRow(row); });
-        break;
-      }
-      case 2:
-      {
-        op = "addRowNamed";
-        auto row = vec(rng.chance(1, 8) ? ncol + 1 : ncol);
-        std::string n = (t.hasRowNames() && nrow > 0 && rng.chance(1, 5)) ? t.getRowName(rng.below(nrow)) : "r" + std::to_string(k);
-        if (nrow >= 6) continue;
-        r = call([&]() { t.addRow(n, row); });
-        break;
-      }
-      case 3:
-      {
-        op = "addColumn";
-        auto col = vec(rng.chance(1, 8) ? nrow + 1 : nrow);
-        if (ncol >= 6) continue;
-        r = call([&]() { t.addColumn(col); });
-        break;
-      }
-      case 4:
-      {
-        op = "addColumnNamed";
-        auto col = vec(rng.chance(1, 8) ? nrow + 1 : nrow);
-        std::string n = (t.hasColumnNames() && ncol > 0 && rng.chance(1, 5)) ? t.getColumnName(rng.below(ncol)) : "c" + std::to_string(k);
-        if (ncol >= 6) continue;
-        r = call([&]() { t.addColumn(n, col); });
-        break;
-      }
-      case 5:
-      {
-        op = "setColumnNames";
-        auto n = uniqueNames(rng, rng.chance(1, 8) ? ncol + 1 : ncol, "c");
-        if (!n.empty() && rng.chance(1, 8)) n[n.size() - 1] = n[0];
-        r = call([&]() { t.setColumnNames(n); });
-        break;
-      }
-      case 6:
-      {
-        op = "setRowNames";
-        auto n = uniqueNames(rng, rng.chance(1, 8) ? nrow + 1 : nrow, "r");
-        if (n.size() > 1 && rng.chance(1, 8)) n[n.size() - 1] = n[0];
-        r = call([&]() { t.setRowNames(n); });
-        break;
-      }
-      case 7:
-      {
-        op = "deleteRow";
-        if (ncol == 0) continue; // without columns the index is not checked (outside C17)
-        size_t idx = rng.below(nrow + 1);
-        r = call([&]() { t.deleteRow(idx); });
-        break;
-      }
-      case 8:
-      {
-        op = "deleteColumn";
-        size_t idx = rng.below(ncol + 1);
-        r = call([&]() { t.deleteColumn(idx); });
-        break;
-      }
-      case 9:
-      {
-        op = "setCell";
-        size_t i2 = rng.below(nrow + 1), j2 = rng.below(ncol + 1);
-        std::string v = cellText(rng);
-        r = call([&]() { t(i2, j2) = v; });
-        break;
-      }
-      case 10:
-      {
-        if (rng.coin())
-        {
-          op = "copy";
-          r = call([&]() {
-            bpp::DataTable c(t);
-            t = c;
-          });
-        }
-        else
-        {
-          // assignment from a table of another shape, with or without names
-          op = "assign";
-          size_t c2 = 1 + rng.below(3), r2 = rng.below(3);
-          bpp::DataTable o(c2);
-          for (size_t a = 0; a < r2; ++a) o.addRow(vec(c2));
-          if (rng.coin()) o.setColumnNames(uniqueNames(rng, c2, "k"));
-          if (r2 > 0 && rng.chance(1, 3)) o.setRowNames(uniqueNames(rng, r2, "q"));
-          r = call([&]() { t = o; });
-        }
-        break;
-      }
-      default:
-        writeRead(t, seps[rng.below(3)], rng.coin());
-        continue;
-      }
-      emit(ev("TabEdit", r).kv("op", op).kv("s", tableProj(t)));
+    case 0:
+    {
+      size_t nr = rng.below(4), nc = rng.below(5);
+      tc("new_rc", Obj().kv("nr", nr).kv("nc", nc), [&]() { t = bpp::DataTable(nr, nc); return none(); });
+      break;
     }
+    case 1:
+    {
+      size_t nc = rng.below(5);
+      tc("new_c", Obj().kv("nc", nc), [&]() { t = bpp::DataTable(nc); return none(); });
+      break;
+    }
+    case 2:
+    {
+      size_t nr = rng.below(4);
+      auto n = uniqueNames(rng, rng.below(4), "c");
+      if (n.size() > 1 && rng.chance(1, 6)) n[1] = n[0];
+      tc("new_rnames", Obj().kv("nr", nr).kv("names", ascList(n)), [&]() { t = bpp::DataTable(nr, n); return none(); });
+      break;
+    }
+    default:
+    {
+      auto n = uniqueNames(rng, rng.below(4), "c");
+      if (n.size() > 1 && rng.chance(1, 6)) n[1] = n[0];
+      tc("new_names", Obj().kv("names", ascList(n)), [&]() { t = bpp::DataTable(n); return none(); });
+    }
+    }
+    size_t steps = 6 + rng.below(25);
+    for (size_t k = 0; k < steps; ++k) randomTableCall(t, rng, 6);
     writeRead(t, seps[rng.below(3)], rng.coin());
   }
 }
